@@ -29,7 +29,7 @@ theorem flushOne_facts (s : St) (c : Cidr) :
     (∀ k, (s.flushOne c).1.view k = s.view k) ∧ (s.flushOne c).1.nodes = s.nodes ∧
     (s.flushOne c).1.me = s.me ∧ (s.flushOne c).1.nodeRoutes = s.nodeRoutes ∧
     (∀ e ∈ (s.flushOne c).2, e.dst = c) ∧
-    (∀ n, (s.view c).block = some n → c ≠ Cidr.host 0 → (s.flushOne c).2 = [Event.update (s.route c)]) := by
+    (∀ n, (s.view c).block = some n → zeroHost c = false → (s.flushOne c).2 = [Event.update (s.route c)]) := by
   unfold St.flushOne
   cases hg : aget s.trie c with
   | none =>
@@ -48,10 +48,10 @@ theorem flushOne_facts (s : St) (c : Cidr) :
       have : last.block = some n := by simpa [St.view, hget, strip] using hb
       simp [RouteInfo.isValidRoute, this] at h1
     · simp only [h1]
-      by_cases h2 : c = Cidr.host 0
+      by_cases h2 : zeroHost c = true
       · simp only [h2, if_true]
         refine ⟨fun _ => by triv, by triv, by triv, by triv, fun e he => by simp at he, ?_⟩
-        intro n _ hne; exact absurd rfl hne
+        intro n _ hne; cases hne
       · simp only [h2, if_false]
         obtain ⟨f1, f2, f3, f4⟩ := setRouteSent_facts s c true
         refine ⟨f1, f2, f3, f4, fun e he => by simp at he; subst he; rfl, ?_⟩
@@ -84,7 +84,7 @@ keep what they had. -/
 theorem flushList_facts (cs : List Cidr) (s : St) :
     (∀ k, (flushList s cs).1.view k = s.view k) ∧ (flushList s cs).1.nodes = s.nodes ∧
     (flushList s cs).1.me = s.me ∧ (flushList s cs).1.nodeRoutes = s.nodeRoutes ∧
-    (∀ (sent : List (Cidr × RouteUpdate)) c n, (s.view c).block = some n → c ≠ Cidr.host 0 →
+    (∀ (sent : List (Cidr × RouteUpdate)) c n, (s.view c).block = some n → zeroHost c = false →
       (c ∈ cs ∨ aget sent c = some (s.route c)) →
       aget (applyEvents sent (flushList s cs).2) c = some (s.route c)) := by
   induction cs generalizing s with
@@ -146,7 +146,7 @@ theorem mem_sorted_dirty (l : List Cidr) (x : Cidr) : x ∈ l.foldr insertCidr [
 structure Inv (s : St) (sent : List (Cidr × RouteUpdate)) : Prop where
   clean : s.dirty = []
   aux : Aux s
-  cur : ∀ c n, Tracked s c n → c ≠ Cidr.host 0 → aget sent c = some (s.route c)
+  cur : ∀ c n, Tracked s c n → zeroHost c = false → aget sent c = some (s.route c)
 
 theorem Aux.of_view (s s' : St) (hv : ∀ k, s'.view k = s.view k) (hn : s'.nodeRoutes = s.nodeRoutes) (h : Aux s) :
     Aux s' := by
@@ -172,11 +172,11 @@ theorem flush_inv (s : St) (sent : List (Cidr × RouteUpdate)) (h : MA s sent) :
   · exact Or.inl ((mem_sorted_dirty _ _).2 hd)
   · exact Or.inr (hm c n ht' hd h0)
 
-/-- the updates the theorem speaks about: node, pool and block updates with CIDRs of length ≤ 32. -/
+/-- the updates the theorem speaks about: node, pool and block updates with CIDRs no longer than their family's address width. -/
 def Op.ok : Op → Prop
   | .node _ _ => True
-  | .pool c _ => c.len ≤ 32
-  | .block c _ _ => c.len ≤ 32
+  | .pool c _ => c.len ≤ c.width
+  | .block c _ _ => c.len ≤ c.width
   | .blockDel _ => True
   | .wep _ _ _ => False
 
